@@ -280,10 +280,7 @@ WRITE_SPECS = '''
     spec fn level_wf(&self) -> bool;
 
     /// The directories of this cache are configured read-write cache directories that no read-only root overlaps.
-    spec fn rw(&self, w: World) -> bool;
-
-    /// `value` is a private, finished (and, when auto_sync demands it, flushed) file holding the bytes supplied for `key`.
-    spec fn ready(&self, w: World, value: PathV, key: Key) -> bool;
+    spec fn rw(&self, cfg: (Set<PathV>, Set<PathV>)) -> bool;
 
     /// Everything a write changed lies inside this cache's directories; new links only under the key's own entry path(s).
     spec fn wrote(&self, old: World, fin: World, key: Key, value: PathV) -> bool;
@@ -322,7 +319,7 @@ def weave_stack(u, u4):
          '&& (forall|p: PathV| old(w).files.contains_key(p) && !(#[trigger] final(w).files.contains_key(p)) ==> p.len() > 0 && parent(p).len() > 0 && base_name(parent(p)) == temp_name())'),
         ('C18:error-is-a-real-fault', 'r.is_err() ==> final(w).hard_faults > old(w).hard_faults'),
     ]
-    td.contract(requires=[('', 'old(w).inv() && self.level_wf() && self.rw(*old(w))')], ensures=TEMP_ENS)
+    td.contract(requires=[('', 'old(w).inv() && self.level_wf() && self.rw(old(w).cfg())')], ensures=TEMP_ENS)
 
     def write_ens():
         return [
@@ -336,13 +333,13 @@ def weave_stack(u, u4):
     for op in ('set', 'put'):
         m = t.sub(['fn ' + op])
         m.add_param(W)
-        m.contract(requires=[('', 'old(w).inv() && self.level_wf() && self.rw(*old(w))'),
-                             ('C01 C03:publishing-needs-a-private-finished-flushed-file-supplied-for-this-key', 'valid_key(str_bytes(key.name)) ==> self.ready(*old(w), pv(value), key)')],
+        m.contract(requires=[('', 'old(w).inv() && self.level_wf() && self.rw(old(w).cfg())'),
+                             ('C01 C03:publishing-needs-a-private-finished-flushed-file-supplied-for-this-key', 'valid_key(str_bytes(key.name)) ==> old(w).value_ok(pv(value), str_bytes(key.name), old(w).must_sync)')],
                    ensures=write_ens())
 
-    RW_PLAIN = ('(self.spec_temp() == child(self.spec_base(), temp_name()) && w.cache_dirs.contains(self.spec_base()) && !w.under_ro(self.spec_base()) '
-                '&& !w.under_ro(self.spec_temp()) && (forall|n: Seq<u8>| !w.under_ro(#[trigger] child(self.spec_base(), n))) '
-                '&& (forall|n: Seq<u8>| !w.under_ro(#[trigger] child(self.spec_temp(), n))))')
+    RW_PLAIN = ('(self.spec_temp() == child(self.spec_base(), temp_name()) && cfg.0.contains(self.spec_base()) && !under_ro_of(cfg.1, self.spec_base()) '
+                '&& !under_ro_of(cfg.1, self.spec_temp()) && (forall|n: Seq<u8>| !under_ro_of(cfg.1, #[trigger] child(self.spec_base(), n))) '
+                '&& (forall|n: Seq<u8>| !under_ro_of(cfg.1, #[trigger] child(self.spec_temp(), n))))')
     S1 = 'shard_ids_spec(key.hash, key.secondary_hash, self.spec_n()).0'
     S2 = 'shard_ids_spec(key.hash, key.secondary_hash, self.spec_n()).1'
     IMPL = {
@@ -350,13 +347,18 @@ def weave_stack(u, u4):
             lookup='plain_lookup(links, self.spec_base(), str_bytes(key.name))', wf='self.wf()', rw=RW_PLAIN,
             ready='value_ready(w, value, self.spec_base(), str_bytes(key.name))',
             wrote='write_frame(old, fin, self.spec_base(), str_bytes(key.name), value)',
-            temp_ok='d == self.spec_temp()'),
+            temp_ok='d == self.spec_temp()',
+            ready_proof='proof { if valid_key(str_bytes(key.name)) { lemma_value_ready(*old(w), pv(value), self.spec_base(), str_bytes(key.name)); } }'),
         'ShardedCache': dict(
-            lookup='sharded_lookup(links, self.spec_root(), self.spec_n(), key)', wf='self.wf()', rw='self.rw(w)',
+            lookup='sharded_lookup(links, self.spec_root(), self.spec_n(), key)', wf='self.wf()', rw='self.rw_cfg(cfg)',
             ready='value_ready(w, value, shard_dir_of(self.spec_root(), %s as usize), str_bytes(key.name)) && value_ready(w, value, shard_dir_of(self.spec_root(), %s as usize), str_bytes(key.name))' % (S1, S2),
             wrote='sharded_frame(old, fin, self.spec_root(), self.spec_n(), str_bytes(key.name), value) '
                   '&& forall|p: PathV| #[trigger] fin.files.contains_key(p) && !old.files.contains_key(p) ==> p == entry_in(self.spec_root(), %s, str_bytes(key.name)) || p == entry_in(self.spec_root(), %s, str_bytes(key.name))' % (S1, S2),
-            temp_ok='exists|i: usize| i < self.spec_n() && d == #[trigger] child(shard_dir_of(self.spec_root(), i), temp_name())'),
+            temp_ok='exists|i: usize| i < self.spec_n() && d == #[trigger] child(shard_dir_of(self.spec_root(), i), temp_name())',
+            ready_proof='proof { if valid_key(str_bytes(key.name)) { lemma_shard_ids(key.hash, key.secondary_hash, self.spec_n()); '
+                        'lemma_shard_rw(*self, *old(w), ' + S1 + ' as usize); lemma_shard_rw(*self, *old(w), ' + S2 + ' as usize); '
+                        'lemma_value_ready(*old(w), pv(value), shard_dir_of(self.spec_root(), %s as usize), str_bytes(key.name)); '
+                        'lemma_value_ready(*old(w), pv(value), shard_dir_of(self.spec_root(), %s as usize), str_bytes(key.name)); } }' % (S1, S2)),
     }
     for ty, sp in IMPL.items():
         im = u.item('src/stack.rs', ['impl FullCache for ' + ty])
@@ -369,13 +371,14 @@ def weave_stack(u, u4):
                 m.insert_before_tok(m.fn_kw(),
                                     'open spec fn lookup(&self, links: Map<PathV, InodeId>, key: Key) -> Option<InodeId> { %(lookup)s }\n\n'
                                     '    open spec fn level_wf(&self) -> bool { %(wf)s }\n\n'
-                                    '    open spec fn rw(&self, w: World) -> bool { %(rw)s }\n\n'
-                                    '    open spec fn ready(&self, w: World, value: PathV, key: Key) -> bool { %(ready)s }\n\n'
+                                    '    open spec fn rw(&self, cfg: (Set<PathV>, Set<PathV>)) -> bool { %(rw)s }\n\n'
                                     '    open spec fn wrote(&self, old: World, fin: World, key: Key, value: PathV) -> bool { %(wrote)s }\n\n'
                                     '    open spec fn temp_ok(&self, w: World, d: PathV) -> bool { %(temp_ok)s }\n\n    ' % sp)
                 first = False
             m.add_param(W)
             m.add_arg('%s :: %s' % (ty, name), TW)
+            if name in ('set', 'put'):
+                m.body_start(sp['ready_proof'])
             if name == 'temp_dir' and ty == 'PlainCache':
                 m.replace('_key : Key', 'key: Key', 'T12-unused-param-name')
     u.dropped.append('T12: the unused parameter `_key` of `impl FullCache for PlainCache::temp_dir` is spelled `key` (parameter names must match the trait contract)')
@@ -391,6 +394,40 @@ impl Cache {
     pub closed spec fn checker(&self) -> Option<ConsistencyChecker> { self.consistency_checker }
     pub closed spec fn readers(&self) -> ReadOnlyCache { self.read_side }
     pub closed spec fn syncs(&self) -> bool { self.auto_sync }
+}
+
+/// Flushing (and the open that precedes it) keeps the hand-over condition and adds `synced`.
+pub proof fn lemma_value_ok_after_sync(old: World, fin: World, value: PathV, name: Seq<u8>)
+    requires
+        old.value_ok(value, name, false),
+        fin.kept(old),
+        fin.files == old.files,
+        fin.supplied == old.supplied || old.supplied.subset_of(fin.supplied),
+        forall|i: InodeId| old.inodes.contains_key(i) ==> fin.inodes.contains_key(i) && #[trigger] fin.inodes[i] == (Inode { atime: fin.inodes[i].atime, synced: fin.inodes[i].synced, ..old.inodes[i] }),
+        old.env_ok(),
+        old.files.contains_key(value) && fin.must_sync ==> fin.inodes[old.files[value]].synced,
+    ensures
+        fin.value_ok(value, name, fin.must_sync),
+{
+    if old.files.contains_key(value) {
+        assert(old.inodes.contains_key(old.files[value]));
+    }
+}
+
+/// Finalizing a temp file (mode 0444, flush when asked) keeps the hand-over condition and adds `synced`.
+pub proof fn lemma_value_ok_after_finalize(old: World, fin: World, value: PathV, name: Seq<u8>, sync: bool)
+    requires
+        old.value_ok(value, name, false),
+        fin.kept(old),
+        fin.files == old.files,
+        old.files.contains_key(value),
+        old.env_ok(),
+        fin.only_inode_changed(old, old.files[value], Inode { writable: false, mode: 0o444, synced: sync || old.inode_at(value).synced, ..old.inode_at(value) }),
+        fin.must_sync == sync,
+    ensures
+        fin.value_ok(value, name, fin.must_sync),
+{
+    assert(old.inodes.contains_key(old.files[value]));
 }
 
 /// No read-only level holds a copy.
@@ -466,4 +503,130 @@ pub open spec fn read_copies_accepted(rs: ReadOnlyCache, links: Map<PathV, Inode
     td.insert_after('if let Some ( write ) = write_side {',
                     '\n                let ghost w0 = *w;\n                proof { assert forall|a: World, b: World| #[trigger] a.atime_only(w0) && #[trigger] b.atime_only(a) implies b.atime_only(w0) by { lemma_atime_only_trans(w0, a, b); } }')
     u.text('}\n')
+    # ---- publishing helpers (C03 C19) -------------------------------------------------------------
+    u.text('use crate::tempfile;\nuse crate::tempfile::NamedTempFile;\n')
+    INV = ('C02 C18:valid-on-every-exit', 'final(w).inv()')
+    rc = u.under_contract(u.item('src/stack.rs', ['fn rc_to_error']), ['C18'])
+    rc.air = 'stack::rc_to_error'
+    rc.replace('Error :: last_os_error', 'io_last_os_error', 'T2-rebind')
+    rc.contract(ensures=[('C18:negative-return-codes-are-errors', 'r.is_ok() == (rc >= 0)')])
+
+    FIN_ENS = [
+        INV, ('', 'final(w).kept(*old(w)) && final(w).listed == old(w).listed && final(w).published == old(w).published && final(w).now == old(w).now'),
+        ('C19 C03:finalized-file-is-mode-0444-and-flushed-when-asked',
+         'r.is_ok() ==> r.unwrap().pathv() == %(t)s.pathv() && final(w).only_inode_changed(*old(w), %(t)s.ino(), '
+         'Inode { writable: false, mode: 0o444, synced: %(sync)s || old(w).inodes[%(t)s.ino()].synced, ..old(w).inodes[%(t)s.ino()] })'),
+        ('C03 C18:a-failed-chmod-flush-or-close-is-reported', 'r.is_err() ==> final(w).hard_faults > old(w).hard_faults || %(noworld)s'),
+        ('C15 C02:finalizing-touches-only-that-inode',
+         'final(w).files == old(w).files && final(w).dirs == old(w).dirs && forall|i: InodeId| i != %(t)s.ino() && old(w).inodes.contains_key(i) ==> #[trigger] final(w).inodes[i] == old(w).inodes[i]'),
+        ('C03 C19:content-is-never-touched-by-finalization',
+         'final(w).inodes.contains_key(%(t)s.ino()) && final(w).inodes[%(t)s.ino()].content == old(w).inodes[%(t)s.ino()].content'),
+        ('C06 C20:at-most-three-filesystem-calls', 'final(w).steps <= old(w).steps + 3 && final(w).opens == old(w).opens'),
+    ]
+    ft = u.under_contract(u.item('src/stack.rs', ['fn finalize_tempfile']), ['C03', 'C19', 'C18', 'C02', 'C15'])
+    ft.air = r'stack::finalize_tempfile(::(fix_tempfile_permissions|close))?'
+    ft.add_param(W)
+    ft.contract(requires=[('', 'old(w).inv() && old(w).inodes.contains_key(tempfile.ino())')],
+                ensures=[(l, t % dict(t='tempfile', sync='sync', noworld='false')) for (l, t) in FIN_ENS])
+    fx = ft.sub(['fn fix_tempfile_permissions'])
+    fx.add_param(W)
+    fx.contract(requires=[('', 'old(w).inv() && old(w).inodes.contains_key(file.ino())')],
+                ensures=[INV, ('', 'final(w).kept(*old(w)) && final(w).listed == old(w).listed && final(w).published == old(w).published && final(w).now == old(w).now'),
+                         ('C19:mode-is-forced-to-0444-whatever-the-umask',
+                          'r.is_ok() ==> final(w).only_inode_changed(*old(w), file.ino(), Inode { writable: false, mode: 0o444, ..old(w).inodes[file.ino()] })'),
+                         ('C18:error-is-a-real-fault', 'r.is_err() ==> final(w).same_fs(*old(w)) && final(w).hard_faults > old(w).hard_faults'),
+                         ('', 'final(w).steps == old(w).steps + 1 && final(w).opens == old(w).opens')])
+    fx.body_start('proof { assert(0o444u32 & 0o222u32 == 0) by (bit_vector); }')
+    cl = ft.sub(['fn close'])
+    cl.replace('unsafe {', '{', 'T13-unsafe-block')
+    cl.add_param(W)
+    cl.contract(requires=[('', 'old(w).inv()')],
+                ensures=[INV, ('', 'final(w).same_fs(*old(w)) && final(w).kept(*old(w)) && final(w).listed == old(w).listed && final(w).published == old(w).published && final(w).now == old(w).now'),
+                         ('C18:a-failed-close-is-reported', 'r.is_err() ==> final(w).hard_faults > old(w).hard_faults'),
+                         ('', 'final(w).steps == old(w).steps + 1 && final(w).opens == old(w).opens && (r.is_ok() ==> final(w).hard_faults == old(w).hard_faults)')])
+    cl.thread(['libc :: close'])
+    u.dropped.append('T13: the `unsafe { libc::close(..) }` block in finalize_tempfile::close loses its `unsafe` keyword (the call is rebound to a safe stand-in)')
+
+    im = u.item('src/stack.rs', ['impl Cache'])
+    KEEPM = {'finalize_tempfile', 'maybe_sync_path', 'set_impl', 'put_impl'}
+    dropped = im.drop_members_except(KEEPM)
+    cf = u.under_contract(im.sub(['fn finalize_tempfile']), ['C03', 'C19', 'C18', 'C02', 'C15'])
+    cf.drop_attrs()
+    cf.air = 'stack::Cache::finalize_tempfile'
+    cf.add_param(W)
+    cf.contract(requires=[('', 'old(w).inv() && old(w).inodes.contains_key(file.ino())')],
+                ensures=[(l, t % dict(t='file', sync='self.syncs()', noworld='false')) for (l, t) in FIN_ENS])
+    ms = u.under_contract(im.sub(['fn maybe_sync_path']), ['C03', 'C18', 'C15', 'C05'])
+    ms.air = 'stack::Cache::maybe_sync_path'
+    ms.add_param(W)
+    ms.replace('. sync_all ( ) . expect (', '.sync_all_or_panic(', 'T2-documented-panic')
+    ms.insert_after('. expect ( "auto_sync failed, and failure semantics are unclear for fsync"', ', Tracked(w)')
+    u.dropped.append('T2 (documented panic): `.sync_all().expect(msg)` in Cache::maybe_sync_path is rebound to File::sync_all_or_panic(msg), which returns only if the flush succeeded')
+    ms.contract(requires=[('', 'old(w).inv()')],
+                ensures=[INV, ('', 'final(w).kept(*old(w)) && final(w).listed == old(w).listed && final(w).published == old(w).published && final(w).now == old(w).now'),
+                         ('C03:with-auto-sync-the-file-is-flushed-before-anything-else-happens',
+                          'r.is_ok() && self.syncs() ==> old(w).files.contains_key(pv(path)) && final(w).inodes[old(w).files[pv(path)]].synced'),
+                         ('C15 C03:syncing-changes-nothing-else',
+                          'final(w).files == old(w).files && final(w).dirs == old(w).dirs && forall|i: InodeId| old(w).inodes.contains_key(i) ==> final(w).inodes.contains_key(i) && '
+                          '#[trigger] final(w).inodes[i] == (Inode { atime: final(w).inodes[i].atime, synced: final(w).inodes[i].synced, ..old(w).inodes[i] }) '
+                          '&& (old(w).inodes[i].synced ==> final(w).inodes[i].synced)'),
+                         ('C18 C05:error-is-an-absent-path-or-a-real-fault', 'r.is_err() ==> final(w).hard_faults > old(w).hard_faults || !old(w).files.contains_key(pv(path))'),
+                         ('C06 C20:at-most-two-filesystem-calls', 'final(w).steps <= old(w).steps + 2 && final(w).opens <= old(w).opens + 1')])
+    WS = 'self.writer().unwrap()'
+    BADK = '(!first_byte_ok(str_bytes(key.name)) || str_bytes(key.name).contains(0x2fu8))'
+
+    def impl_ens(ws):
+        return [
+            INV, ('', 'final(w).kept_nc(*old(w))'),
+            ('C13 C15:without-a-write-cache-writes-fail-as-unsupported-and-change-nothing',
+             '%s.is_none() ==> r.is_err() && err_kind(err_of(r)) == ErrorKind::Unsupported && *final(w) == *old(w)' % ws.replace('.unwrap()', '')),
+            ('C16:invalid-names-fail-with-invalid-input-and-modify-nothing',
+             '%s.is_some() && %s ==> r.is_err() && err_kind(err_of(r)) == ErrorKind::InvalidInput && final(w).same_fs(*old(w)) && final(w).counter == old(w).counter '
+             '&& final(w).published == old(w).published' % (ws.replace('.unwrap()', ''), BADK)),
+            ('C11 C18:success-consumes-the-source', 'r.is_ok() ==> old(w).files.contains_key(pv(value)) && !final(w).files.contains_key(pv(value))'),
+            ('C15 C16 C17 C12:everything-that-changes-is-inside-the-write-cache',
+             '%s.is_some() ==> %s.wrote(*old(w), *final(w), key, pv(value))' % (ws.replace('.unwrap()', ''), ws)),
+            ('C18 C05:error-is-explained',
+             'r.is_err() ==> %s.is_none() || %s || final(w).hard_faults > old(w).hard_faults || !final(w).files.contains_key(pv(value))' % (ws.replace('.unwrap()', ''), BADK)),
+        ]
+
+    IMPL_REQ = [('', 'old(w).inv() && (self.writer().is_some() ==> %s.level_wf() && %s.rw(old(w).cfg()))' % (WS, WS)),
+                ('C01 C03:publishing-needs-a-private-finished-flushed-file-supplied-for-this-key',
+                 'self.writer().is_some() && valid_key(str_bytes(key.name)) ==> old(w).value_ok(pv(value), str_bytes(key.name), old(w).must_sync)')]
+    for op in ('set', 'put'):
+        m = u.under_contract(im.sub(['fn %s_impl' % op]), ['C13', 'C15', 'C16', 'C18', 'C11', 'C03', 'C01', 'C05', 'C12', 'C17'])
+        m.air = 'stack::Cache::%s_impl' % op
+        m.add_param(W)
+        m.replace('Error :: new', 'io_error_new', 'T2-rebind')
+        m.thread(['write . ' + op])
+        m.contract(requires=IMPL_REQ, ensures=impl_ens(WS))
+
+    # set::doit / put::doit (path variants: flush first) and the temp-file variants (finalize first)
+    TW_ = 'this.writer().unwrap()'
+    for op, variant in (('set', 'path'), ('put', 'path'), ('set_temp_file', 'temp'), ('put_temp_file', 'temp')):
+        u.text('pub mod cache_%s {\nuse super::*;\nuse crate::std;\n' % op)
+        d = u.under_contract(u.item('src/stack.rs', ['impl Cache', 'fn ' + op, 'fn doit']), ['C03', 'C19', 'C13', 'C15', 'C16', 'C18', 'C11', 'C01', 'C05', 'C02'])
+        d.insert_before_tok(d.fn_kw(), 'pub ')
+        d.air = 'stack::cache_%s::doit' % op
+        d.add_param(W)
+        VAL = 'pv(value)' if variant == 'path' else 'value.pathv()'
+        req = [('', 'old(w).inv() && old(w).must_sync == this.syncs() && (this.writer().is_some() ==> %s.level_wf() && %s.rw(old(w).cfg()))' % (TW_, TW_)),
+               ('C01:caller-hands-in-a-private-finished-file-supplied-for-this-key',
+                'valid_key(str_bytes(key.name)) ==> old(w).value_ok(%s, str_bytes(key.name), false)' % VAL)]
+        if variant == 'temp':
+            req.append(('', 'old(w).files.contains_key(value.pathv()) && old(w).files[value.pathv()] == value.ino() && old(w).inodes.contains_key(value.ino())'))
+        ens = [
+            INV, ('', 'final(w).kept_nc(*old(w))'),
+            ('C13:without-a-write-cache-nothing-is-published', 'this.writer().is_none() ==> r.is_err() && final(w).published == old(w).published && final(w).dirs == old(w).dirs'),
+            ('C11 C18:success-consumes-the-source', 'r.is_ok() ==> old(w).files.contains_key(%s) && !final(w).files.contains_key(%s)' % (VAL, VAL)),
+            ('C18 C05:error-is-explained',
+             'r.is_err() ==> this.writer().is_none() || %s || final(w).hard_faults > old(w).hard_faults || !final(w).files.contains_key(%s) || !old(w).files.contains_key(%s)' % (BADK, VAL, VAL)),
+        ]
+        d.contract(requires=req, ensures=ens)
+        d.thread(['this . maybe_sync_path', 'this . set_impl', 'this . put_impl', 'this . finalize_tempfile'])
+        if variant == 'path':
+            d.insert_after('this . maybe_sync_path ( value ) ? ;', '\n            proof { if valid_key(str_bytes(key.name)) { lemma_value_ok_after_sync(*old(w), *w, pv(value), str_bytes(key.name)); } }')
+        else:
+            d.insert_after('let path = this . finalize_tempfile ( value ) ? ;', '\n            proof { if valid_key(str_bytes(key.name)) { lemma_value_ok_after_finalize(*old(w), *w, path.pathv(), str_bytes(key.name), this.syncs()); } }')
+        u.text('}\n')
     u.text('}\n')
